@@ -1,0 +1,268 @@
+//go:build verif
+
+// Contracts for the ctl action (package actions), checked by /verif/govc (comment-only file; no code).
+package actions
+
+// ---------------------------------------------------------------- id ranges (C17: "ranges behave like the enumeration of their members")
+
+// dashPos(s): position of the first '-' of s, -1 when there is none (bytePos is defined in /verif/specs/ctl.spec).
+//@ define dashPos(s string) int := bytePos(s, '-')
+//@ define rangeLo(s string) string := s[0:dashPos(s)]
+//@ define rangeHi(s string) string := s[dashPos(s)+1:len(s)]
+// A well-formed range is "A-B" split at the first '-', both sides decimal integers (strconv.Atoi), A <= B.
+//@ define rangeOK(s string) bool := dashPos(s) >= 0 && isnum(rangeLo(s)) && isnum(rangeHi(s)) && atoi(rangeLo(s)) <= atoi(rangeHi(s))
+
+// parseRange accepts exactly the well-formed ranges and returns exactly their bounds; anything else is an error
+// (never a panic) with both results 0.
+//@ func parseRange props C17,C08,C02,C07
+//@   modifies nothing
+//@   ensures accepts: isnil(err) <==> rangeOK(input)
+//@   ensures bounds: isnil(err) ==> start == atoi(rangeLo(input)) && end == atoi(rangeHi(input)) && start <= end
+//@   ensures rejected: !isnil(err) ==> start == 0 && end == 0
+
+// parseIDOrRange: a text with a '-' is a range, a text without is a single id N, which denotes the range [N, N].
+//@ define idOrRangeOK(s string) bool := ite(dashPos(s) >= 0, rangeOK(s), s != "" && isnum(s))
+//@ func parseIDOrRange props C17,C08,C02,C07
+//@   modifies nothing
+//@   ensures accepts: isnil(err) <==> idOrRangeOK(input)
+//@   ensures range: isnil(err) && dashPos(input) >= 0 ==> start == atoi(rangeLo(input)) && end == atoi(rangeHi(input)) && start <= end
+//@   ensures single: isnil(err) && dashPos(input) == -1 ==> start == atoi(input) && end == atoi(input)
+//@   ensures rejected: !isnil(err) ==> start == 0 && end == 0
+
+// ---------------------------------------------------------------- Evaluate: the effect of one ctl on THIS transaction (C17, C08, C02)
+
+// parseOnOff: on / off (case-insensitively) are the two toggles, anything else is not a toggle.
+//@ func parseOnOff props C17,C08,C02,C07
+//@   modifies nothing
+//@   ensures result1 <==> (lower(s) == "on" || lower(s) == "off")
+//@   ensures result0 <==> lower(s) == "on"
+
+//@ define ctlT(txS plugintypes.TransactionState) *corazawaf.Transaction := payload(txS, "*corazawaf.Transaction")
+// What a live transaction always satisfies (set up by WAF.newTransaction, kept by everything that runs on it).
+//@ define CtlTxInv(t *corazawaf.Transaction) bool := t.WAF != nil && !isnil(t.debugLogger) && !isnil(t.WAF.Logger) && TargetsSep(t) &&
+//@     t.variables.reqbodyProcessor != nil && t.variables.resBodyProcessor != nil && t.variables.reqbodyProcessor != t.variables.resBodyProcessor
+
+// The id range denoted by the argument of ruleRemoveTargetById: "A-B" is [A, B], "N" is [N, N].
+//@ define idLo(s string) int := ite(dashPos(s) >= 0, atoi(rangeLo(s)), atoi(s))
+//@ define idHi(s string) int := ite(dashPos(s) >= 0, atoi(rangeHi(s)), atoi(s))
+// Selection of rule number i of the WAF's rule list by id range, tag, message.
+//@ define ruleInRange(t *corazawaf.Transaction, i int, lo int, hi int) bool := lo <= t.WAF.Rules.rules[i].ID_ && t.WAF.Rules.rules[i].ID_ <= hi
+//@ define ruleHasTag(t *corazawaf.Transaction, i int, tag string) bool :=
+//@     exists k int :: 0 <= k && k < len(t.WAF.Rules.rules[i].Tags_) && t.WAF.Rules.rules[i].Tags_[k] == tag
+//@ define ruleHasMsg(t *corazawaf.Transaction, i int, msg string) bool := !isnil(t.WAF.Rules.rules[i].Msg) && macroStr(t.WAF.Rules.rules[i].Msg) == msg
+// oldLen: the length of the exclusion list of rule id on entry (0 when there was none).
+//@ define oldLen(t *corazawaf.Transaction, id int) int := ite(old(has(t.ruleRemoveTargetByID, id)), old(len(t.ruleRemoveTargetByID[id])), 0)
+// exclGrew: the exclusion list of rule id is longer than it was (with targetEntriesAre: all its new entries are the exclusion).
+//@ define exclGrew(t *corazawaf.Transaction, id int) bool := has(t.ruleRemoveTargetByID, id) && len(t.ruleRemoveTargetByID[id]) > oldLen(t, id)
+// targetEntriesAre: every entry of every list is either an entry that was there on entry, unchanged and in place, or
+// (beyond the list's earlier length) the exclusion (v, key, rx).
+//@ define targetEntriesAre(t *corazawaf.Transaction, v variables.RuleVariable, key string, rx *regexp.Regexp) bool :=
+//@     forall k int, j int :: has(t.ruleRemoveTargetByID, k) && 0 <= j && j < len(t.ruleRemoveTargetByID[k]) ==>
+//@         ite(old(has(t.ruleRemoveTargetByID, k)) && j < old(len(t.ruleRemoveTargetByID[k])), exclOldAt(t, k, j), exclAt(t, k, j, v, key, rx))
+// targetListsNotShorter: no exclusion list disappears or gets shorter.
+//@ define targetListsNotShorter(t *corazawaf.Transaction) bool := forall k int :: old(has(t.ruleRemoveTargetByID, k)) ==>
+//@     has(t.ruleRemoveTargetByID, k) && len(t.ruleRemoveTargetByID[k]) >= old(len(t.ruleRemoveTargetByID[k]))
+// targetsSame: no exclusion list changed.
+//@ define targetsSame(t *corazawaf.Transaction) bool := forall k int :: has(t.ruleRemoveTargetByID, k) == old(has(t.ruleRemoveTargetByID, k)) &&
+//@     t.ruleRemoveTargetByID[k] == old(t.ruleRemoveTargetByID[k]) &&
+//@     (forall j int :: old(has(t.ruleRemoveTargetByID, k)) && 0 <= j && j < old(len(t.ruleRemoveTargetByID[k])) ==> exclOldAt(t, k, j))
+// removalsSame: the lists of removed rule ids / id ranges are what they were.
+//@ define removedIDsSame(t *corazawaf.Transaction) bool := forall k int :: has(t.ruleRemoveByID, k) == old(has(t.ruleRemoveByID, k))
+//@ define removedRangesSame(t *corazawaf.Transaction) bool := t.ruleRemoveByIDRanges == old(t.ruleRemoveByIDRanges) &&
+//@     (forall j int :: 0 <= j && j < len(t.ruleRemoveByIDRanges) ==> t.ruleRemoveByIDRanges[j] == old(t.ruleRemoveByIDRanges[j]))
+
+// The per-transaction settings a ctl may change, numbered; cfgKept(t, n): all of them except number n are what they were.
+//@ define cfgKept(t *corazawaf.Transaction, n int) bool :=
+//@     (n == 1 || t.RuleEngine == old(t.RuleEngine)) && (n == 2 || t.AuditEngine == old(t.AuditEngine)) && (n == 3 || t.AuditLogParts == old(t.AuditLogParts)) &&
+//@     (n == 4 || t.ForceRequestBodyVariable == old(t.ForceRequestBodyVariable)) && (n == 5 || t.RequestBodyAccess == old(t.RequestBodyAccess)) &&
+//@     (n == 6 || t.RequestBodyLimit == old(t.RequestBodyLimit)) && (n == 7 || t.ResponseBodyAccess == old(t.ResponseBodyAccess)) &&
+//@     (n == 8 || t.ResponseBodyLimit == old(t.ResponseBodyLimit)) && (n == 9 || t.ForceResponseBodyVariable == old(t.ForceResponseBodyVariable)) &&
+//@     (n == 10 || t.debugLogger == old(t.debugLogger))
+//@ define ctlField(act ctlFunctionType) int := ite(act == ctlRuleEngine, 1, ite(act == ctlAuditEngine, 2, ite(act == ctlAuditLogParts, 3,
+//@     ite(act == ctlForceRequestBodyVariable, 4, ite(act == ctlRequestBodyAccess, 5, ite(act == ctlRequestBodyLimit, 6, ite(act == ctlResponseBodyAccess, 7,
+//@     ite(act == ctlResponseBodyLimit, 8, ite(act == ctlForceResponseBodyVariable, 9, ite(act == ctlDebugLogLevel, 10, 0))))))))))
+//@ define isTargetCtl(act ctlFunctionType) bool := act == ctlRuleRemoveTargetByID || act == ctlRuleRemoveTargetByTag || act == ctlRuleRemoveTargetByMsg
+//@ define isOnOff(s string) bool := lower(s) == "on" || lower(s) == "off"
+
+//@ func (*ctlFn).Evaluate props C17,C08,C02,C07
+//@   requires isTx(txS) && CtlTxInv(ctlT(txS))
+//@   requires auditPartsTable: OrderedPartsInit()
+// the effect is on this transaction only: nothing shared by the transactions of the WAF is written (C17 "and on no other transaction")
+//@   excludes corazawaf.Rule, corazawaf.RuleGroup, corazawaf.WAF, globals
+//@   modifies inferred
+//@   ensures keepsInv: CtlTxInv(ctlT(txS))
+// every kind of ctl changes its own setting and no other; the flow-control state and the interruption are never touched
+//@   ensures onlyOwnSetting: cfgKept(ctlT(txS), ctlField(a.action))
+//@   ensures flowStateKept: ctlT(txS).Skip == old(ctlT(txS).Skip) && ctlT(txS).SkipAfter == old(ctlT(txS).SkipAfter) && ctlT(txS).AllowType == old(ctlT(txS).AllowType) &&
+//@       ctlT(txS).interruption == old(ctlT(txS).interruption) && ctlT(txS).detectionOnlyInterruption == old(ctlT(txS).detectionOnlyInterruption) && ctlT(txS).lastPhase == old(ctlT(txS).lastPhase)
+//@   ensures removedIDsOnlyByRemoveCtl: a.action != ctlRuleRemoveByID && a.action != ctlRuleRemoveByTag && a.action != ctlRuleRemoveByMsg ==> removedIDsSame(ctlT(txS))
+//@   ensures removedRangesOnlyByRemoveByID: a.action != ctlRuleRemoveByID ==> removedRangesSame(ctlT(txS))
+//@   ensures targetsOnlyByTargetCtl: !isTargetCtl(a.action) ==> targetsSame(ctlT(txS))
+
+// ---- run-time target exclusions (C17): for EVERY rule of the WAF's list that the id / id range / tag / message selects,
+// the transaction's exclusion list of that rule's id has grown, and every entry of every list that was not there before is the
+// exclusion (collection, key, key pattern)
+// (chain members look their exclusions up under the id of their chain starter, which is the rule in the list);
+// no list gets shorter or changes an earlier entry, and every new entry is this exclusion; lists of ids outside the range are
+// not touched; an argument that is neither an id nor a range changes nothing.
+//@   ensures targetByID: a.action == ctlRuleRemoveTargetByID && idOrRangeOK(a.value) ==> (forall i int :: 0 <= i && i < len(ctlT(txS).WAF.Rules.rules) &&
+//@       ruleInRange(ctlT(txS), i, idLo(a.value), idHi(a.value)) ==> exclGrew(ctlT(txS), ctlT(txS).WAF.Rules.rules[i].ID_))
+//@   ensures targetByIDOutside: a.action == ctlRuleRemoveTargetByID && idOrRangeOK(a.value) ==> (forall k int :: k < idLo(a.value) || k > idHi(a.value) ==>
+//@       has(ctlT(txS).ruleRemoveTargetByID, k) == old(has(ctlT(txS).ruleRemoveTargetByID, k)) && ctlT(txS).ruleRemoveTargetByID[k] == old(ctlT(txS).ruleRemoveTargetByID[k]))
+//@   ensures targetByIDInvalid: a.action == ctlRuleRemoveTargetByID && !idOrRangeOK(a.value) ==> targetsSame(ctlT(txS))
+//@   ensures targetByTag: a.action == ctlRuleRemoveTargetByTag ==> (forall i int :: 0 <= i && i < len(ctlT(txS).WAF.Rules.rules) &&
+//@       ruleHasTag(ctlT(txS), i, a.value) ==> exclGrew(ctlT(txS), ctlT(txS).WAF.Rules.rules[i].ID_))
+//@   ensures targetByMsg: a.action == ctlRuleRemoveTargetByMsg ==> (forall i int :: 0 <= i && i < len(ctlT(txS).WAF.Rules.rules) &&
+//@       ruleHasMsg(ctlT(txS), i, a.value) ==> exclGrew(ctlT(txS), ctlT(txS).WAF.Rules.rules[i].ID_))
+//@   ensures targetByIDNotShorter: a.action == ctlRuleRemoveTargetByID ==> targetListsNotShorter(ctlT(txS))
+//@   ensures targetByIDEntries: a.action == ctlRuleRemoveTargetByID ==> targetEntriesAre(ctlT(txS), a.collection, a.colKey, a.colKeyRx)
+//@   ensures targetByTagNotShorter: a.action == ctlRuleRemoveTargetByTag ==> targetListsNotShorter(ctlT(txS))
+//@   ensures targetByTagEntries: a.action == ctlRuleRemoveTargetByTag ==> targetEntriesAre(ctlT(txS), a.collection, a.colKey, a.colKeyRx)
+//@   ensures targetByMsgNotShorter: a.action == ctlRuleRemoveTargetByMsg ==> targetListsNotShorter(ctlT(txS))
+//@   ensures targetByMsgEntries: a.action == ctlRuleRemoveTargetByMsg ==> targetEntriesAre(ctlT(txS), a.collection, a.colKey, a.colKeyRx)
+
+// (by tag / by message, "for exactly the rules": every call that adds an exclusion in those two loops is for the id of the
+// rule at hand, which carries the tag / the message, and hands over exactly the action's collection, key and key pattern)
+//@   at call "tx.RemoveRuleTargetByID(r.ID(), a.collection, a.colKey, a.colKeyRx)" requires onlySelectedRules:
+//@       arg(1) == ctlT(txS).WAF.Rules.rules[rangeindex + 1].ID_ && arg(2) == a.collection && arg(3) == a.colKey && arg(4) == a.colKeyRx &&
+//@       (a.action == ctlRuleRemoveTargetByTag ==> ruleHasTag(ctlT(txS), rangeindex + 1, a.value)) &&
+//@       (a.action == ctlRuleRemoveTargetByMsg ==> ruleHasMsg(ctlT(txS), rangeindex + 1, a.value))
+
+//@   at call "tx.RemoveRuleTargetByID(r.ID_, a.collection, a.colKey, a.colKeyRx)" requires onlyRulesInRange:
+//@       arg(1) == ctlT(txS).WAF.Rules.rules[rangeindex + 1].ID_ && idLo(a.value) <= arg(1) && arg(1) <= idHi(a.value) && idOrRangeOK(a.value) &&
+//@       arg(2) == a.collection && arg(3) == a.colKey && arg(4) == a.colKeyRx
+
+// ---- run-time rule removal (C17): a single id is added to the set of removed ids, a range to the list of removed ranges
+// (a range behaves like the enumeration of its members: RuleGroup.Eval skips exactly the ids inside one of the ranges);
+// by tag / by message: the id of EVERY rule carrying the tag / message is in the set afterwards, and an id that is not the
+// id of a rule carrying it is neither added nor removed.
+//@   ensures removeByIDSingle: a.action == ctlRuleRemoveByID && dashPos(a.value) == -1 && isnum(a.value) ==> has(ctlT(txS).ruleRemoveByID, atoi(a.value)) &&
+//@       (forall k int :: k != atoi(a.value) ==> has(ctlT(txS).ruleRemoveByID, k) == old(has(ctlT(txS).ruleRemoveByID, k))) && removedRangesSame(ctlT(txS))
+//@   ensures removeByIDRange: a.action == ctlRuleRemoveByID && dashPos(a.value) >= 0 && rangeOK(a.value) ==> removedIDsSame(ctlT(txS)) &&
+//@       len(ctlT(txS).ruleRemoveByIDRanges) == old(len(ctlT(txS).ruleRemoveByIDRanges)) + 1 &&
+//@       ctlT(txS).ruleRemoveByIDRanges[len(ctlT(txS).ruleRemoveByIDRanges) - 1][0] == atoi(rangeLo(a.value)) &&
+//@       ctlT(txS).ruleRemoveByIDRanges[len(ctlT(txS).ruleRemoveByIDRanges) - 1][1] == atoi(rangeHi(a.value)) &&
+//@       (forall j int :: 0 <= j && j < old(len(ctlT(txS).ruleRemoveByIDRanges)) ==> ctlT(txS).ruleRemoveByIDRanges[j] == old(ctlT(txS).ruleRemoveByIDRanges[j]))
+//@   ensures removeByIDInvalid: a.action == ctlRuleRemoveByID && !ite(dashPos(a.value) == -1, isnum(a.value), rangeOK(a.value)) ==>
+//@       removedIDsSame(ctlT(txS)) && removedRangesSame(ctlT(txS))
+//@   ensures removeByTag: a.action == ctlRuleRemoveByTag ==> (forall i int :: 0 <= i && i < len(ctlT(txS).WAF.Rules.rules) && ruleHasTag(ctlT(txS), i, a.value) ==>
+//@       has(ctlT(txS).ruleRemoveByID, ctlT(txS).WAF.Rules.rules[i].ID_))
+// (by tag, "nothing else": stated where the ids are added -- every id handed to RemoveRuleByID by the two loops is the id of
+// the rule at hand, and that rule carries the tag / the message; RemoveRuleByID adds that id and keeps everything else)
+//@   at call "tx.RemoveRuleByID(r.ID_)" requires onlySelectedRules: arg(1) == ctlT(txS).WAF.Rules.rules[rangeindex + 1].ID_ &&
+//@       (a.action == ctlRuleRemoveByTag ==> ruleHasTag(ctlT(txS), rangeindex + 1, a.value)) &&
+//@       (a.action == ctlRuleRemoveByMsg ==> ruleHasMsg(ctlT(txS), rangeindex + 1, a.value))
+//@   ensures removeByMsg: a.action == ctlRuleRemoveByMsg ==> (forall i int :: 0 <= i && i < len(ctlT(txS).WAF.Rules.rules) && ruleHasMsg(ctlT(txS), i, a.value) ==>
+//@       has(ctlT(txS).ruleRemoveByID, ctlT(txS).WAF.Rules.rules[i].ID_))
+//@   ensures removeByMsgOnly: a.action == ctlRuleRemoveByMsg ==> (forall k int ::
+//@       (forall i int :: 0 <= i && i < len(ctlT(txS).WAF.Rules.rules) && ctlT(txS).WAF.Rules.rules[i].ID_ == k ==> !ruleHasMsg(ctlT(txS), i, a.value)) ==>
+//@       has(ctlT(txS).ruleRemoveByID, k) == old(has(ctlT(txS).ruleRemoveByID, k)))
+//@   ensures removedNeverForgotten: forall k int :: old(has(ctlT(txS).ruleRemoveByID, k)) ==> has(ctlT(txS).ruleRemoveByID, k)
+
+// ---- settings (C02, C08): each takes the parsed value, an invalid value changes nothing; the body settings can only be
+// changed while the phase they govern has not started (request: up to the request-headers phase, response: up to the
+// response-headers phase).
+//@   ensures ruleEngine: a.action == ctlRuleEngine ==> ctlT(txS).RuleEngine == ite(lower(a.value) == "on", types.RuleEngineOn,
+//@       ite(lower(a.value) == "detectiononly", types.RuleEngineDetectionOnly, ite(lower(a.value) == "off", types.RuleEngineOff, old(ctlT(txS).RuleEngine))))
+//@   ensures auditEngine: a.action == ctlAuditEngine ==> ctlT(txS).AuditEngine == ite(lower(a.value) == "on", types.AuditEngineOn,
+//@       ite(lower(a.value) == "off", types.AuditEngineOff, ite(lower(a.value) == "relevantonly", types.AuditEngineRelevantOnly, old(ctlT(txS).AuditEngine))))
+//@   ensures auditLogPartsRejected: a.action == ctlAuditLogParts && (a.value == "" ||
+//@       (isDelta(a.value) && !(forall k int :: 1 <= k && k < len(a.value) ==> isMiddlePart(a.value[k])))) ==> ctlT(txS).AuditLogParts == old(ctlT(txS).AuditLogParts)
+//@   ensures forceRequestBodyVariable: a.action == ctlForceRequestBodyVariable ==>
+//@       ctlT(txS).ForceRequestBodyVariable == ite(isOnOff(a.value), lower(a.value) == "on", old(ctlT(txS).ForceRequestBodyVariable))
+//@   ensures forceResponseBodyVariable: a.action == ctlForceResponseBodyVariable ==>
+//@       ctlT(txS).ForceResponseBodyVariable == ite(isOnOff(a.value), lower(a.value) == "on", old(ctlT(txS).ForceResponseBodyVariable))
+//@   ensures requestBodyAccess: a.action == ctlRequestBodyAccess ==> ctlT(txS).RequestBodyAccess ==
+//@       ite(old(ctlT(txS).lastPhase) <= types.PhaseRequestHeaders && isOnOff(a.value), lower(a.value) == "on", old(ctlT(txS).RequestBodyAccess))
+//@   ensures requestBodyLimit: a.action == ctlRequestBodyLimit ==> ctlT(txS).RequestBodyLimit ==
+//@       ite(old(ctlT(txS).lastPhase) <= types.PhaseRequestHeaders && parseI(a.value, 64), intVal(a.value), old(ctlT(txS).RequestBodyLimit))
+//@   ensures responseBodyAccess: a.action == ctlResponseBodyAccess ==> ctlT(txS).ResponseBodyAccess ==
+//@       ite(old(ctlT(txS).lastPhase) <= types.PhaseResponseHeaders && isOnOff(a.value), lower(a.value) == "on", old(ctlT(txS).ResponseBodyAccess))
+//@   ensures responseBodyLimit: a.action == ctlResponseBodyLimit ==> ctlT(txS).ResponseBodyLimit ==
+//@       ite(old(ctlT(txS).lastPhase) <= types.PhaseResponseHeaders && parseI(a.value, 64), intVal(a.value), old(ctlT(txS).ResponseBodyLimit))
+//@   ensures requestBodyProcessor: a.action == ctlRequestBodyProcessor && old(ctlT(txS).lastPhase) <= types.PhaseRequestHeaders ==> ctlT(txS).variables.reqbodyProcessor.data == upper(a.value)
+//@   ensures requestBodyProcessorKept: !(a.action == ctlRequestBodyProcessor && old(ctlT(txS).lastPhase) <= types.PhaseRequestHeaders) ==>
+//@       ctlT(txS).variables.reqbodyProcessor.data == old(ctlT(txS).variables.reqbodyProcessor.data)
+//@   ensures responseBodyProcessor: a.action == ctlResponseBodyProcessor && old(ctlT(txS).lastPhase) <= types.PhaseResponseHeaders ==> ctlT(txS).variables.resBodyProcessor.data == upper(a.value)
+//@   ensures responseBodyProcessorKept: !(a.action == ctlResponseBodyProcessor && old(ctlT(txS).lastPhase) <= types.PhaseResponseHeaders) ==>
+//@       ctlT(txS).variables.resBodyProcessor.data == old(ctlT(txS).variables.resBodyProcessor.data)
+//@   ensures debugLogLevelInvalid: a.action == ctlDebugLogLevel && !parseI(a.value, 8) ==> ctlT(txS).debugLogger == old(ctlT(txS).debugLogger)
+// loops 1-3: ruleRemoveTargetById / ByTag / ByMsg
+//@   loop 1
+//@     invariant -1 <= rangeindex && rangeindex < len(ctlT(txS).WAF.Rules.rules) && CtlTxInv(ctlT(txS))
+//@     invariant done: forall i int :: 0 <= i && i <= rangeindex && ruleInRange(ctlT(txS), i, start, end) ==> exclGrew(ctlT(txS), ctlT(txS).WAF.Rules.rules[i].ID_)
+//@     invariant outside: forall k int :: k < start || k > end ==>
+//@         has(ctlT(txS).ruleRemoveTargetByID, k) == old(has(ctlT(txS).ruleRemoveTargetByID, k)) && ctlT(txS).ruleRemoveTargetByID[k] == old(ctlT(txS).ruleRemoveTargetByID[k])
+//@     invariant lens: targetListsNotShorter(ctlT(txS))
+//@     invariant entries: targetEntriesAre(ctlT(txS), a.collection, a.colKey, a.colKeyRx)
+//@   loop 2
+//@     invariant -1 <= rangeindex && rangeindex < len(rules) && rules == ctlT(txS).WAF.Rules.rules && CtlTxInv(ctlT(txS))
+//@     invariant done: forall i int :: 0 <= i && i <= rangeindex && ruleHasTag(ctlT(txS), i, a.value) ==> exclGrew(ctlT(txS), ctlT(txS).WAF.Rules.rules[i].ID_)
+//@     invariant lens: targetListsNotShorter(ctlT(txS))
+//@     invariant entries: targetEntriesAre(ctlT(txS), a.collection, a.colKey, a.colKeyRx)
+//@   loop 3
+//@     invariant -1 <= rangeindex && rangeindex < len(rules) && rules == ctlT(txS).WAF.Rules.rules && CtlTxInv(ctlT(txS))
+//@     invariant done: forall i int :: 0 <= i && i <= rangeindex && ruleHasMsg(ctlT(txS), i, a.value) ==> exclGrew(ctlT(txS), ctlT(txS).WAF.Rules.rules[i].ID_)
+//@     invariant lens: targetListsNotShorter(ctlT(txS))
+//@     invariant entries: targetEntriesAre(ctlT(txS), a.collection, a.colKey, a.colKeyRx)
+// loops 4, 5: ruleRemoveByMsg / ByTag
+//@   loop 4
+//@     invariant -1 <= rangeindex && rangeindex < len(rules) && rules == ctlT(txS).WAF.Rules.rules && CtlTxInv(ctlT(txS))
+//@     invariant done: forall i int :: 0 <= i && i <= rangeindex && ruleHasMsg(ctlT(txS), i, a.value) ==> has(ctlT(txS).ruleRemoveByID, ctlT(txS).WAF.Rules.rules[i].ID_)
+//@     invariant only: forall k int :: (forall i int :: 0 <= i && i <= rangeindex && ctlT(txS).WAF.Rules.rules[i].ID_ == k ==> !ruleHasMsg(ctlT(txS), i, a.value)) ==>
+//@         has(ctlT(txS).ruleRemoveByID, k) == old(has(ctlT(txS).ruleRemoveByID, k))
+//@     invariant kept: forall k int :: old(has(ctlT(txS).ruleRemoveByID, k)) ==> has(ctlT(txS).ruleRemoveByID, k)
+//@   loop 5
+//@     invariant -1 <= rangeindex && rangeindex < len(rules) && rules == ctlT(txS).WAF.Rules.rules && CtlTxInv(ctlT(txS))
+//@     invariant done: forall i int :: 0 <= i && i <= rangeindex && ruleHasTag(ctlT(txS), i, a.value) ==> has(ctlT(txS).ruleRemoveByID, ctlT(txS).WAF.Rules.rules[i].ID_)
+//@     invariant kept: forall k int :: old(has(ctlT(txS).ruleRemoveByID, k)) ==> has(ctlT(txS).ruleRemoveByID, k)
+
+// ---------------------------------------------------------------- parsing "name=value;COLLECTION:key" (C17, C07)
+
+// The text is cut at its first '=' into option name and argument, the argument at its first ';' into value and
+// target, the target at its first ':' into collection name and key.
+//@ define ctlName(d string) string := d[0:bytePos(d, '=')]
+//@ define ctlArg(d string) string := d[bytePos(d, '=')+1:len(d)]
+//@ define ctlVal(d string) string := ite(bytePos(ctlArg(d), ';') >= 0, ctlArg(d)[0:bytePos(ctlArg(d), ';')], ctlArg(d))
+//@ define ctlTarget(d string) string := ite(bytePos(ctlArg(d), ';') >= 0, ctlArg(d)[bytePos(ctlArg(d), ';')+1:len(ctlArg(d))], "")
+//@ define ctlKeyRaw(d string) string := ite(bytePos(ctlTarget(d), ':') >= 0, ctlTarget(d)[bytePos(ctlTarget(d), ':')+1:len(ctlTarget(d))], "")
+// (the key is space-trimmed; an argument without target has the empty key)
+//@ define ctlKey(d string) string := ite(bytePos(ctlArg(d), ';') >= 0, trimSpace(ctlKeyRaw(d)), "")
+// Every documented option name has its own kind; any other name has none (ctlUnknown).
+//@ define ctlKind(n string) ctlFunctionType := ite(n == "auditEngine", ctlAuditEngine, ite(n == "auditLogParts", ctlAuditLogParts,
+//@     ite(n == "requestBodyAccess", ctlRequestBodyAccess, ite(n == "requestBodyLimit", ctlRequestBodyLimit, ite(n == "requestBodyProcessor", ctlRequestBodyProcessor,
+//@     ite(n == "forceRequestBodyVariable", ctlForceRequestBodyVariable, ite(n == "responseBodyProcessor", ctlResponseBodyProcessor,
+//@     ite(n == "responseBodyAccess", ctlResponseBodyAccess, ite(n == "responseBodyLimit", ctlResponseBodyLimit,
+//@     ite(n == "forceResponseBodyVariable", ctlForceResponseBodyVariable, ite(n == "ruleEngine", ctlRuleEngine, ite(n == "ruleRemoveById", ctlRuleRemoveByID,
+//@     ite(n == "ruleRemoveByMsg", ctlRuleRemoveByMsg, ite(n == "ruleRemoveByTag", ctlRuleRemoveByTag, ite(n == "ruleRemoveTargetById", ctlRuleRemoveTargetByID,
+//@     ite(n == "ruleRemoveTargetByMsg", ctlRuleRemoveTargetByMsg, ite(n == "ruleRemoveTargetByTag", ctlRuleRemoveTargetByTag, ite(n == "hashEngine", ctlHashEngine,
+//@     ite(n == "hashEnforcement", ctlHashEnforcement, ite(n == "debugLogLevel", ctlDebugLogLevel, ctlUnknown))))))))))))))))))))
+
+// parseCtl: a text without '=' or with an unknown option name is an error; an accepted text yields the kind of its
+// option name, its value byte-exact, and its key: a key of the form /pattern/ (see internal/strings.HasRegex) is a
+// regular expression (compiled; the string key is then empty; an empty pattern is an error), any other key is the
+// lower-cased, space-trimmed text. Errors come with the zero results.
+//@ func parseCtl props C17,C08,C02,C07,C13
+//@   memoize re
+//@   ensures noEquals: bytePos(data, '=') == -1 ==> !isnil(result5)
+//@   ensures unknownName: bytePos(data, '=') >= 0 && ctlKind(ctlName(data)) == ctlUnknown ==> !isnil(result5)
+//@   ensures emptyPattern: bytePos(data, '=') >= 0 && regexForm(ctlKey(data)) && len(ctlKey(data)) == 2 ==> !isnil(result5)
+//@   ensures kind: isnil(result5) ==> bytePos(data, '=') >= 0 && result0 == ctlKind(ctlName(data)) && result0 != ctlUnknown
+//@   ensures value: isnil(result5) ==> result1 == ctlVal(data)
+//@   ensures stringKey: isnil(result5) && !regexForm(ctlKey(data)) ==> result3 == lower(ctlKey(data)) && result4 == nil
+//@   ensures regexKey: isnil(result5) && regexForm(ctlKey(data)) ==> result3 == ""
+// (without a memoizer the pattern is compiled here; with one, the compiled value is whatever the build cache hands back for the key: C13)
+//@   ensures regexKeyCompiled: isnil(result5) && regexForm(ctlKey(data)) && isnil(memoizer) ==> result4 != nil
+//@   ensures acceptsStringKeys: bytePos(data, '=') >= 0 && ctlKind(ctlName(data)) != ctlUnknown && !regexForm(ctlKey(data)) ==> isnil(result5)
+//@   ensures rejected: !isnil(result5) ==> result0 == ctlUnknown && result1 == "" && result2 == 0 && result3 == "" && result4 == nil
+
+// Init stores exactly what parseCtl returns for the action's argument.
+//@ func (*ctlFn).Init props C17,C08,C02,C07
+//@   requires ruleNotTypedNil: typeof(m) == tag("*corazawaf.Rule") ==> payload(m, "*corazawaf.Rule") != nil
+//@   ensures accepted: isnil(result) ==> bytePos(data, '=') >= 0 && ctlKind(ctlName(data)) != ctlUnknown
+//@   ensures acceptsStringKeys: bytePos(data, '=') >= 0 && ctlKind(ctlName(data)) != ctlUnknown && !regexForm(ctlKey(data)) ==> isnil(result)
+//@   ensures rejectedZero: !isnil(result) ==> a.action == ctlUnknown && a.value == "" && a.colKey == "" && a.colKeyRx == nil
+//@   ensures stored: isnil(result) ==> a.action == ctlKind(ctlName(data)) && a.value == ctlVal(data)
+//@   ensures storedKey: isnil(result) && !regexForm(ctlKey(data)) ==> a.colKey == lower(ctlKey(data)) && a.colKeyRx == nil
+//@   ensures storedPattern: isnil(result) && regexForm(ctlKey(data)) ==> a.colKey == ""
+
